@@ -86,10 +86,11 @@ CLAIMS = {
         note="Trusted: std Vec::sort_by/dedup_by/truncate contracts; total_order is a total preorder (C09).",
         ref="DESIGN.md §5 C08"),
     "C09": dict(
-        technique="finite-ordering abstract interpretation of comparator folds + same-index def-use analysis of element-wise operators",
-        text="Structure of the order implementations: the InsertionCost fold is evaluated over Less/Equal/Greater (Equal continues, otherwise breaks with "
-             "that order), operands are self[i]/other[i] compared only by f64::total_cmp with zero padding over 0..max(len), PartialOrd/PartialEq "
-             "delegate to Ord, Add/Sub are element-wise with the right operator; Goal::total_order folds layers front to back calling each with (a,b); "
+        technique="finite-ordering abstract interpretation of the whole comparison functions over small symbolic vectors / layer lists + same-index def-use analysis of element-wise operators",
+        text="Order laws by finite evaluation of the whole functions: InsertionCost::cmp over cost vectors of 0/1/2 components per side (every ordering of the compared "
+             "components enumerated) answers the ordering of the first differing zero-padded pair; Goal::total_order over 0/1/2 layers answers the first non-Equal layer and asks "
+             "every layer about (a, b); both in fold and loop form. Components are compared only by f64::total_cmp, PartialOrd/PartialEq "
+             "delegate to Ord, Add/Sub are element-wise with the right operator over 0..max(len); the single-objective comparator is exact; dominance order is antisymmetric; "
              "fitness enumerates the same layers. Not decided: laws of multi-objective layers, (x+y)-y == x numerically, sign of zero.",
         note="A lexicographic extension of a total order with fixed padding is a total order; f64::total_cmp is total (trusted).",
         ref="DESIGN.md §5 C09"),
